@@ -715,6 +715,9 @@ class CompiledLogicNet(torch.nn.Module):
 
     def get_c_code(self) -> str:
         """Generate the complete C code for the network."""
+        if self.model is None:
+            # a handle returned by load() has no model: the generated logic_net would be empty
+            raise ValueError("This CompiledLogicNet was loaded from a library and has no model to generate code from.")
         code = [
             "#include <stddef.h>",
             "#include <stdlib.h>",
